@@ -106,14 +106,17 @@ let ask_opt name args = match ask name args with
   | L [A ":some"; v] -> Some (bytes_of v)
   | x -> failwith ("bad option answer: " ^ show x)
 
+(* "setprims :gallina" switches every primitive except RSA-OAEP to the Gallina
+   implementations of Crypto.v (the instance Crypto.GP); ":oracle" switches back *)
+let use_gallina = ref false
 let oracle : prims = {
-  aead_seal = (fun k n p -> ask_bytes "aead_seal" [sb k; sb n; sb p]);
-  aead_open = (fun k n c -> ask_opt "aead_open" [sb k; sb n; sb c]);
-  hkdf32 = (fun ikm salt info -> ask_bytes "hkdf32" [sb ikm; sb salt; sb info]);
-  hmac = (fun k m -> ask_bytes "hmac" [sb k; sb m]);
-  sha256 = (fun m -> ask_bytes "sha256" [sb m]);
-  x25519 = (fun s p -> ask_opt "x25519" [sb s; sb p]);
-  scrypt = (fun pw salt logn -> ask_bytes "scrypt" [sb pw; sb salt; si (int_of_n logn)]);
+  aead_seal = (fun k n p -> if !use_gallina then chapoly_seal k n p else ask_bytes "aead_seal" [sb k; sb n; sb p]);
+  aead_open = (fun k n c -> if !use_gallina then chapoly_open k n c else ask_opt "aead_open" [sb k; sb n; sb c]);
+  hkdf32 = (fun ikm salt info -> if !use_gallina then hkdf32_sha256 ikm salt info else ask_bytes "hkdf32" [sb ikm; sb salt; sb info]);
+  hmac = (fun k m -> if !use_gallina then hmac_sha256 k m else ask_bytes "hmac" [sb k; sb m]);
+  sha256 = (fun m -> if !use_gallina then sha256_bytes m else ask_bytes "sha256" [sb m]);
+  x25519 = (fun s p -> if !use_gallina then x25519_go s p else ask_opt "x25519" [sb s; sb p]);
+  scrypt = (fun pw salt logn -> if !use_gallina then scrypt_bytes pw salt logn else ask_bytes "scrypt" [sb pw; sb salt; si (int_of_n logn)]);
   rsa_encrypt = (fun key label m coins -> ask_bytes "rsa_encrypt" [sb key; sb label; sb m; sb coins]);
   rsa_decrypt = (fun key label c -> ask_opt "rsa_decrypt" [sb key; sb label; sb c]);
 }
@@ -195,6 +198,20 @@ let run (op : string) (args : sx list) : sx =
   let seal key = oracle.aead_seal key and open_ key = oracle.aead_open key in
   match op, args with
   | "setcs", [n] -> cs := nat_of n; A ":done"
+  | "setprims", [A ":gallina"] -> use_gallina := true; A ":done"
+  | "setprims", [A ":oracle"] -> use_gallina := false; A ":done"
+  (* the Gallina primitives of Crypto.v, evaluated directly *)
+  | "gprim", (A name :: args) ->
+      let opt = function Some b -> L [A ":some"; sb b] | None -> A ":none" in
+      (match name, args with
+       | ":sha256", [m] -> sb (sha256_bytes (bytes_of m))
+       | ":hmac", [k; m] -> sb (hmac_sha256 (bytes_of k) (bytes_of m))
+       | ":hkdf32", [i; s; f] -> sb (hkdf32_sha256 (bytes_of i) (bytes_of s) (bytes_of f))
+       | ":aead_seal", [k; n; p] -> sb (chapoly_seal (bytes_of k) (bytes_of n) (bytes_of p))
+       | ":aead_open", [k; n; c] -> opt (chapoly_open (bytes_of k) (bytes_of n) (bytes_of c))
+       | ":x25519", [s; p] -> opt (x25519_go (bytes_of s) (bytes_of p))
+       | ":scrypt", [pw; salt; logn] -> sb (scrypt_bytes (bytes_of pw) (bytes_of salt) (n_of_int (int_of logn)))
+       | _ -> failwith ("gprim: unknown primitive " ^ name))
   (* format *)
   | "parse", [b] ->
       res_sx (fun (h, rest) -> [sb (marshal h); sb rest; L (List.map stanza_sx h.h_stanzas); sb h.h_mac])
